@@ -314,6 +314,17 @@ func runFwd(sc Scenario, tr *Trace, seed int64) {
 			fmt.Fprintf(&reqb, "%s:\r\n", h)
 		}
 		if cn := names(in["conn"].([]any)); len(cn) > 0 {
+			// header names are case-insensitive: a token may spell the header it names in any case
+			switch strOr(st, "conncase", "asis") {
+			case "lower":
+				for i := range cn {
+					cn[i] = strings.ToLower(cn[i])
+				}
+			case "upper":
+				for i := range cn {
+					cn[i] = strings.ToUpper(cn[i])
+				}
+			}
 			if boolOr(st, "connlines", false) { // one Connection line per token
 				for _, n := range cn {
 					fmt.Fprintf(&reqb, "Connection: %s\r\n", n)
